@@ -58,25 +58,40 @@ class Tok:
         if k == 1: return ["ok", self.str()]
         if k == 2: return ["raise", "ValueError"]
         if k == 3: return ["raise", "UnicodeEncodeError"]
+        if k == 4: return ["raise", "Exception"]
         return ["skipped"]
 
 
 F22 = "F22-empty-authority"
+F29 = "F29-uri-with-drops-authority"
+WIN_ALPHA = [ord(c) for c in "\\/:cCa %"] + [0xE9]
+
+
+def enc_opt(x):
+    return "0" if x is None else "1 " + enc(x)
 
 
 class C18(core.Property):
     id = "C18"
-    modules = ["Proofs.UrisProofs", "Props.C18"]
-    obligations = ["hex_roundtrip", "utf8_dec_replace_enc_all", "unquote_quote", "quote_ascii_unreserved",
-                   "quote_is_pct_encode", "normalize_spec", "py_urlparse_file", "rfc_split_of_output",
-                   "pct_decode_encode_drive_path", "from_fs_path_spec", "to_fs_path_spec", "path_roundtrip",
-                   "uri_roundtrip", "nonfile_none", "none_none", "C18_partial", "C18_refuted_empty_authority",
-                   "C18_refuted_empty_authority_4", "C18_refuted", "C18_guard_class", "C18_reference_agrees",
-                   "C18_nonvacuous", "C18_bare_host", "C18_bracket_raises"]
+    modules = ["Proofs.UrisProofs", "Proofs.UrisExt", "Props.C18"]
+    obligations = ["hex_roundtrip", "unquote_quote", "quote_ascii_unreserved", "rfc_split_of_output",
+                   "from_fs_path_spec", "to_fs_path_spec", "path_roundtrip", "uri_roundtrip", "nonfile_none",
+                   "none_none", "C18_partial", "C18_refuted_empty_authority", "C18_refuted_empty_authority_4",
+                   "C18_refuted", "C18_guard_class", "C18_reference_agrees", "C18_nonvacuous", "C18_bare_host",
+                   "C18_bracket_raises",
+                   # extension: uri_with, is_win, urlparse/urlunparse/uri_scheme (C18_ext is the conjunction of
+                   # uri_with_identity, uri_with_needs_path, the is_win=false equalities, win_roundtrip,
+                   # win_to_is_posix_backslashed, unparse_parse, uri_scheme_of_output, uri_scheme_lowercases)
+                   "win_roundtrip", "from_fs_path_gen_posix", "to_fs_path_gen_posix", "uri_with_spec",
+                   "C18_uri_with_partial", "C18_refuted_uri_with_authority", "C18_uri_with_refuted", "C18_ext",
+                   "C18_ext_pinned", "C18_scheme_reference_agrees"]
     coq_targets = ["Props/C18.vo", "Extract/ExtractC18.vo"]
     rule = ("rt cases: every absolute path up to length L over the 24-symbol alphabet (exhaustive) + seeded random "
             "longer paths; to cases: scheme list x tails, random URI strings; direct quote/unquote/urlparse/urlunparse "
-            "comparisons with urllib.parse / pygls.uris on the same strings; non-trivial = the string has a "
+            "comparisons with urllib.parse / pygls.uris on the same strings; uri_with on URIs from the path corpus x "
+            "component replacements and on random URIs; with pygls.uris.IS_WIN patched to True: every string up to "
+            "length 4 over a 9-symbol Windows alphabet + random longer paths through from/to/from, to_fs_path on "
+            "random URIs; non-trivial = the string has a "
             "URI-significant or non-ASCII character")
     trusted_base = ["Coq 8.16.1 kernel incl. vm_compute (refutation witnesses, Examples, 256-octet table)",
                     "extraction with ExtrOcamlBasic only + ocaml/c18_driver.ml + conv_io/conv_n",
@@ -85,7 +100,7 @@ class C18(core.Property):
                     "bytes.decode('utf-8','replace'), str.find/startswith/lower, re match of ^/[a-zA-Z]:",
                     "not modelled (cases flagged approx, compared but never alarming): ipaddress validation of a "
                     "bracketed host, the NFKC check of a non-ASCII authority"]
-    assumptions = ["POSIX (IS_WIN false)", "a Python str is a list of code points 0..0x10FFFF",
+    assumptions = ["IS_WIN false unless the case says win (then pygls.uris.IS_WIN is patched to True; nothing in uris.py depends on os.path)", "a Python str is a list of code points 0..0x10FFFF",
                    "arguments are str or None"]
 
     # ---------------- generation ----------------
@@ -192,6 +207,32 @@ class C18(core.Property):
             cases.append({"k": "rfc", "u": u})
         for p in longer[:chk.n(300, 3000)]:
             cases.append({"k": "norm", "p": p})
+        # 8. extension: uri_with, the IS_WIN branches
+        somepaths = paths[:chk.n(601, 14425)] + longer[:chk.n(500, 5000)]
+        for p in somepaths:
+            cases.append({"k": "uwid", "p": p})
+        fps = [cps(x) for x in ("/baz/boo", "D:/hello universe.py", "/D:/x", "d:", "rel/a b", "/", "", "/a%41?#;", "/é€",
+                                "//host/x", "//host", "///x", "//", "/a//b", "C:\\x\\y", "/Z:/q")]
+        opts = [None, [], cps("h2"), cps("q=1&r=é"), cps("a b#?"), cps("h/2"), [0x20AC]]
+        for p in longer[:chk.n(250, 3000)] + paths[:chk.n(100, 601)]:
+            for _ in range(3):
+                cases.append({"k": "uwr", "p": p, "fp": rng.choice(fps) if rng.random() < 0.7 else rng.choice(longer),
+                              "n": rng.choice(opts[:3] + [None, None, cps("h/2")]), "q": rng.choice(opts),
+                              "f": rng.choice(opts)})
+        allopts = opts + [cps("http"), cps("file"), cps("svn+ssh"), cps("p;x")]
+        for u in uris[:chk.n(1200, 15000)]:
+            cases.append({"k": "uw", "win": rng.randrange(2), "u": u,
+                          "parts": [rng.choice(allopts) if rng.random() < 0.4 else None for _ in range(6)]})
+        for L2 in range(chk.n(5, 6)):
+            for t in itertools.product(WIN_ALPHA, repeat=L2):
+                cases.append({"k": "wrt", "p": list(t)})
+        wpool = WIN_ALPHA + cps("\\\\//bxyZ$.-_?#") + [0x20AC, 0x1F60B]
+        for _ in range(chk.n(1500, 20000)):
+            body = [rng.choice(wpool) for _ in range(rng.randint(2, 16))]
+            pre = rng.choice(["c:\\", "C:\\", "\\\\host\\share\\", "\\", "Z:/", "", "\\\\host", "\\\\\\"])
+            cases.append({"k": "wrt", "p": cps(pre) + body})
+        for u in uris[:chk.n(800, 10000)]:
+            cases.append({"k": "wto", "u": u})
         return cases
 
     # ---------------- implementation ----------------
@@ -239,6 +280,14 @@ class C18(core.Property):
                         out.append(["ok", [cps(a), cps(b)]])
                     except Exception as ex:
                         out.append(["raise", type(ex).__name__])
+                elif k in ("wrt", "wto", "uw") and c.get("win", 1):
+                    uris.IS_WIN = True          # the module reads its own global at call time
+                    try:
+                        out.append(self._ext_impl(uris, c))
+                    finally:
+                        uris.IS_WIN = False
+                elif k in ("uw", "uwid", "uwr"):
+                    out.append(self._ext_impl(uris, c))
                 elif k == "rfc":
                     u = tostr(c["u"])
                     m = RFC_RE.match(u)
@@ -249,6 +298,45 @@ class C18(core.Property):
             except Exception as ex:               # never crash the check on one case
                 out.append(["harness-raise", type(ex).__name__])
         return out
+
+    @staticmethod
+    def _ext_impl(uris, c):
+        k = c["k"]
+        opt = lambda x: None if x is None else tostr(x)
+        if k == "wrt":
+            o1 = obs(uris.from_fs_path, tostr(c["p"]))
+            o2, o3 = ["skipped"], ["skipped"]
+            if o1[0] == "ok" and o1[1] is not None:
+                o2 = obs(uris.to_fs_path, tostr(o1[1]))
+                if o2[0] == "ok" and o2[1] is not None:
+                    o3 = obs(uris.from_fs_path, tostr(o2[1]))
+            return [o1, o2, o3]
+        if k == "wto":
+            return [obs(uris.to_fs_path, tostr(c["u"]))]
+        if k == "uw":
+            a = [opt(x) for x in c["parts"]]
+            return [obs(lambda: uris.uri_with(tostr(c["u"]), scheme=a[0], netloc=a[1], path=a[2], params=a[3],
+                                              query=a[4], fragment=a[5]))]
+        if k == "uwid":
+            o1 = obs(uris.from_fs_path, tostr(c["p"]))
+            if o1[0] == "ok" and o1[1] is not None:
+                o2 = obs(uris.to_fs_path, tostr(o1[1]))
+                if o2[0] == "ok" and o2[1] is not None:
+                    return [obs(lambda: uris.uri_with(tostr(o1[1]), path=tostr(o2[1])))]
+            return [["skipped"]]
+        if k == "uwr":
+            o1 = obs(uris.from_fs_path, tostr(c["p"]))
+            if o1[0] == "ok" and o1[1] is not None:
+                r = obs(lambda: uris.uri_with(tostr(o1[1]), netloc=opt(c["n"]), path=tostr(c["fp"]), query=opt(c["q"]),
+                                              fragment=opt(c["f"])))
+                if r[0] == "ok":
+                    try:
+                        return [r, ["ok", [cps(x) for x in uris.urlparse(tostr(r[1]))]]]
+                    except Exception as ex:
+                        return [r, ["raise", type(ex).__name__]]
+                return [r, ["skipped"]]
+            return [["skipped"], ["skipped"]]
+        raise ValueError(k)
 
     @staticmethod
     def _strict_pct(s):
@@ -277,6 +365,14 @@ class C18(core.Property):
             return f"{k} {enc(c['s'])}"
         if k == "unparse":
             return "unparse " + " ".join(enc(x) for x in c["parts"])
+        if k in ("wrt", "uwid"):
+            return f"{k} {enc(c['p'])}"
+        if k == "wto":
+            return f"wto {enc(c['u'])}"
+        if k == "uw":
+            return f"uw {c.get('win', 1)} {enc(c['u'])} " + " ".join(enc_opt(x) for x in c["parts"])
+        if k == "uwr":
+            return f"uwr {enc(c['p'])} {enc(c['fp'])} {enc_opt(c['n'])} {enc_opt(c['q'])} {enc_opt(c['f'])}"
         raise ValueError(k)
 
     def model_output(self, c, toks):
@@ -295,11 +391,13 @@ class C18(core.Property):
         if k == "to":
             M = [t.oo(), t.oo(), t.oo()]
             approx, plain, isfile = t.int(), t.int(), t.int()
+            sch = t.opt()
             if approx:
                 return {"M": M, "S": None, "guard": False}
-            if plain and not isfile:                # a URI with a non-file scheme: None, no exception
-                return {"M": M, "S": [["ok", None]], "guard": True}
-            return {"M": M, "S": None, "guard": True}
+            # a plain URI with a non-file scheme: None, no exception; its scheme: the RFC scheme, lower-cased
+            # (an entry None of S leaves that component unconstrained)
+            S = [["ok", None] if (plain and not isfile) else None, ["ok", sch] if (plain and sch is not None) else None]
+            return {"M": M, "S": S if any(x is not None for x in S) else None, "guard": True}
         if k == "none":
             M = [t.oo(), t.oo(), t.oo()]
             return {"M": M, "S": [["ok", None], ["ok", None]], "guard": True}
@@ -318,10 +416,45 @@ class C18(core.Property):
             return {"M": ["ok", [t.str(), t.str()]], "S": None, "guard": True}
         if k == "rfc":
             return {"M": [t.opt(), t.opt(), t.str(), t.opt(), t.opt(), t.opt()], "S": None, "guard": True}
+        pinned = [["ok", c["expect"]]] if "expect" in c else None       # stated by tests/test_uris.py
+        if k == "wrt":
+            M = [t.oo(), t.oo(), t.oo()]
+            su, sn = t.str(), t.str()
+            g, ea = t.int(), t.int()
+            if pinned:
+                return {"M": M, "S": pinned, "guard": True}
+            if not g and not ea:                    # lone surrogates: outside the statement
+                return {"M": M, "S": None, "guard": True}
+            return {"M": M, "S": [["ok", su], ["ok", sn], ["ok", su]], "guard": bool(g), "klass": F22 if ea else None}
+        if k == "wto":
+            M = [t.oo()]
+            approx = t.int()
+            return {"M": M, "S": pinned, "guard": not approx}
+        if k == "uw":
+            M = [t.oo()]
+            approx = t.int()
+            return {"M": M, "S": pinned, "guard": not approx}
+        if k == "uwid":
+            M = [t.oo()]
+            su, g = t.str(), t.int()
+            return {"M": M, "S": [["ok", su]] if g else None, "guard": True}
+        if k == "uwr":
+            r = t.oo()
+            M = [r, ["skipped"]]
+            if r != ["skipped"]:
+                tag = t.int()
+                M[1] = (["ok", [t.str() for _ in range(6)]] if tag == 1 else
+                        ["skipped"] if tag == 9 else ["raise", "ValueError"])
+            su, g, f29 = t.str(), t.int(), t.int()
+            if g:
+                return {"M": M, "S": [["ok", su]], "guard": True}
+            if f29:
+                return {"M": M, "S": [["ok", su]], "guard": False, "klass": F29}
+            return {"M": M, "S": None, "guard": True}
         raise ValueError(k)
 
     def satisfies(self, c, impl, S):
-        return impl[:len(S)] == S
+        return len(impl) >= len(S) and all(s is None or s == i for s, i in zip(S, impl))
 
     def nontrivial(self, c):
         s = c.get("p") or c.get("u") or c.get("s") or [x for p in c.get("parts", []) for x in p]
@@ -378,7 +511,7 @@ class C18(core.Property):
             miss = [n for n in missing if inr(n)]
             self.extra_coverage = {"anchored_lines": len(anch), "anchored_lines_executed": len(anch) - len(miss),
                                    "anchored_lines_never_executed": miss,
-                                   "anchored_lines_note": "expected never executed: the two IS_WIN branches"}
+                                   "anchored_lines_note": "the IS_WIN branches are reached by the cases that patch pygls.uris.IS_WIN"}
         except Exception as ex:
             chk.notes.append("anchored-line coverage not measured: " + repr(ex))
         return []
@@ -387,6 +520,8 @@ class C18(core.Property):
         d = {}
         for c in cases:
             key = c["k"]
+            if key == "uw":
+                key += "/win" if c.get("win", 1) else "/posix"
             if key == "rt":
                 p = c["p"]
                 key += "/unc" if p[:2] == [47, 47] else "/drive" if len(p) > 2 and p[2] == 58 else ""
